@@ -119,6 +119,9 @@ type caseClock struct {
 }
 
 func (c *caseClock) Sleep(d time.Duration) {
+	if c.dead.Load() {
+		runtime.Goexit()
+	}
 	c.Clock.Sleep(d)
 	if c.dead.Load() {
 		runtime.Goexit()
@@ -642,6 +645,7 @@ func TestHistories(t *testing.T) {
 	if n := tp.count(); n > 0 {
 		r.ClassN("scripted-haproxy-calls", int64(n))
 	}
+	r.Note(fmt.Sprintf("goroutines alive after the last case: %d", runtime.NumGoroutine()))
 }
 
 // ---- bounded-exhaustive boundary grid ---------------------------------------------
@@ -795,16 +799,15 @@ func runBurst(e *env, b burst) error {
 	okIdx[0] = base
 
 	nw := len(b.Workers)
-	// transactions of the prelude are shared out among the workers
-	owned := make([][]*known, nw)
-	i := 0
+	// every worker may look up every transaction of the prelude again (the request
+	// handler, the response handler and the diagnosis worker of one transaction run
+	// on different goroutines); transactions started inside the burst stay with
+	// the worker that started them
+	var shared []*known
 	for _, id := range pre.IDs {
-		p := e.pins[id]
-		if p == nil {
-			continue
+		if p := e.pins[id]; p != nil {
+			shared = append(shared, &known{id: id, since: p.t0, sig: e.vers[p.ver], minIdx: p.ver})
 		}
-		owned[i%nw] = append(owned[i%nw], &known{id: id, since: p.t0, sig: e.vers[p.ver], minIdx: p.ver})
-		i++
 	}
 	var started, done atomic.Int64
 	results := make([][]lres, nw)
@@ -815,7 +818,7 @@ func runBurst(e *env, b burst) error {
 		go func(w int) {
 			defer wg.Done()
 			<-gate
-			mine := append([]*known(nil), owned[w]...)
+			mine := append([]*known(nil), shared...)
 			fresh := 0
 			for _, op := range b.Workers[w] {
 				var id string
@@ -892,10 +895,8 @@ func runBurst(e *env, b burst) error {
 
 	// judge the observed results
 	idx := map[string]*known{}
-	for w := range owned {
-		for _, k := range owned[w] {
-			idx[k.id] = k
-		}
+	for _, k := range shared {
+		idx[k.id] = k
 	}
 	for w := range results {
 		for _, res := range results[w] {
